@@ -461,7 +461,19 @@ func judgeRemove(p docgen.Plan, o *vh.Obs) {
 	} else {
 		o.Class("residue")
 		rd, err := ratref.ParseDec(rnd)
-		if !has || err != nil || rd.Rat().Cmp(residue) != 0 {
+		// the presented total with tax is itself rounded: under the precise rule the
+		// recorded residue may differ from the difference of the presented figures
+		// by one minor unit (it is exact under the currency rule)
+		tol := new(big.Rat)
+		if orig.Env.Rule != "currency" {
+			tol.SetFrac(big.NewInt(1), ratref.Pow10(orig.Env.C))
+		}
+		off := new(big.Rat)
+		if err == nil {
+			off.Sub(rd.Rat(), residue)
+			off.Abs(off)
+		}
+		if !has || err != nil || off.Cmp(tol) > 0 {
 			o.Failf("remove:residue", "residue %s between the original total with tax %s and the new one %s is recorded as rounding %q", residue.FloatString(4), twt, after.Figures["totals.total_with_tax"], rnd)
 		}
 	}
